@@ -35,6 +35,8 @@ INDEX = {
  "C04": {"package": "./roaring", "harnesses": [
    {"name": "VerifH04RoundTrip", "common": {"max_depth": 2000}, "quick": {"bounds": {"containers": 1, "array": 2, "runs": 2, "words": 1, "bases": 1, "wordmask6": 1, "keychoices": 2}}, "thorough": {"bounds": {"containers": 2, "array": 3, "runs": 3, "words": 1, "bases": 2, "wordmask6": 1, "keychoices": 2}}},
    {"name": "VerifH04Import", "common": {"max_depth": 2000}, "quick": {"bounds": {"array": 1, "runs": 1, "words": 1, "bases": 1, "wordmask6": 1, "runlen": 2, "near": 1, "full": 1, "tkinds": 2, "ttyps": 1, "styps": 1}}, "thorough": {"bounds": {"array": 2, "runs": 2, "words": 1, "bases": 1, "wordmask6": 1, "runlen": 3, "near": 1, "full": 1, "tkinds": 2}}},
+   {"name": "VerifH04HistoryRoundTripSlice", "common": {"max_depth": 3000}, "quick": {"bounds": {"steps": 2, "keys": 2}}, "thorough": {"bounds": {"steps": 3, "keys": 2}}},
+   {"name": "VerifH04HistoryRoundTripBTree", "common": {"max_depth": 3000}, "quick": {"bounds": {"steps": 2, "keys": 2}}, "thorough": {"bounds": {"steps": 3, "keys": 2}}},
  ]},
  "C05": {"package": "./roaring", "harnesses": [
    {"name": "VerifH05OpLog", "common": {"max_depth": 2000}, "quick": {"bounds": {"steps": 2, "ops": 4, "keys": 1}}, "thorough": {"bounds": {"steps": 2, "ops": 4, "keys": 2}, "max_paths": 400000}},
